@@ -616,14 +616,19 @@ end KawinV.SaveLoad
 ## `fromJson(file)` into ANY receiver (Surrogate.py `_processSurrogateData`), file names with dots (round 6)
 
 `fromJson` does not construct an object: it is called ON an object, which may already hold training data and fitted
-kernels (a coarse preliminary training, an older file).  The code REPLACES the data dictionaries by the file's and then
-refits every quantity the file holds, in the fixed order, with the receiver's settings; it never clears the dictionaries
-of fitted kernels (a quantity the file does not hold keeps the kernel the receiver had — recorded finding).
+kernels (a coarse preliminary training, an older file).  The code (since repair 1756dd7) REPLACES the data dictionaries
+by the file's, EMPTIES the dictionaries of fitted kernels and then fits every quantity the file holds, in the fixed
+order, with the receiver's settings.  Before the repair the kernel dictionaries were never cleared (a quantity the file
+does not hold kept the kernel the receiver had while its data were gone): variant `loadIntoKeepModels`.
 -/
 namespace KawinV.SurrogateFit
 
 /-- `receiver.fromJson(file)`: `file q` = the stored training data of quantity `q` in the file (`none`: not in the file) -/
 def loadInto {δ π : Type} (h : Hooks π) (r : Surr δ π) (file : Q → Option (Train δ π)) : Surr δ π :=
+  refitOrder.foldl (fitQ h) { settings := r.settings, data := file, models := fun _ => none }
+
+/-- VARIANT (the code before 1756dd7): the kernels of the receiver are not cleared -/
+def loadIntoKeepModels {δ π : Type} (h : Hooks π) (r : Surr δ π) (file : Q → Option (Train δ π)) : Surr δ π :=
   refitOrder.foldl (fitQ h) { settings := r.settings, data := file, models := r.models }
 
 /-- VARIANT (not the code): "fitting is the expensive part of loading" — a quantity is fitted only when the receiver has no
